@@ -70,7 +70,22 @@ CLAIM = {
             'object raises ZeroDivisionError there, the IA solver reports a non-finite entry (inf/nan, also in dB '
             'and sum capacity) and the harness maps both to that tag. Sessions read the raw realisation that '
             'randomize stored from _big_H_no_pathloss; a path loss set for another number of links is discarded by '
-            'a new realisation (documented behaviour). The IA solver has no external-power '
+            'a new realisation (documented behaviour). Robustness classes: R1 element types (arrays int8..int64, '
+            'uint8/16, float32, complex64; scalars incl. narrow numpy ints, float16/32, bool; lists/tuples; K and '
+            'antenna numbers in every integer type), R2 layout/shape (Fortran, transposed, strided, reversed, offset '
+            'views; 0-d arrays; a user with zero streams), R5 boundaries (path loss exactly 0/1, noise 0/0.0/None/1 '
+            'incl. 0.0 after a positive one, pe 0/1, K=1, sizes 1..9 at prime/power-of-two boundaries) and R6 scale '
+            '(path loss -100..-130 dB with noise 1e-15..1e-20 and filters 1e-7..1e-9; channel/precoders/filters times '
+            '1e-12..1e12; all comparisons relative to the data) run through correspondence AND first-principles '
+            'oracles; R3 (inputs left untouched incl. flags, results double precision and not aliasing inputs, '
+            'earlier results do not move, the object does not follow the caller\'s arrays), R4 (16 kinds of refused '
+            'calls on channel object and solver inside sessions: every observable identical before/after, history '
+            'continues against model / first principles / fresh object) and R7 (re-used objects, repeated calls, a '
+            'second solver sharing the channel object) by session correspondence and oracles. By theorem: R1/R2 '
+            '(reports_depend_on_logical_values_only: the model has no dtype/layout), R3/R4/R7 '
+            '(refused_calls_leave_no_trace, reports_depend_on_current_inputs_only), R5 (zero-denominator theorems, '
+            'pathloss_stream_power at g=0), R6 (sinr_power_scale_invariant, sinr_scale_invariant); that the '
+            'IMPLEMENTATION has these properties is correspondence/oracle evidence only. The IA solver has no external-power '
             'parameter: it is compared at the channel object\'s default pe = 1. Fixed in the worktree: the solver '
             'ignored external interference; integer channel + integer pe + noise raised a casting error. A '
             'MultiUserChannelMatrixExtInt with zero external sources is outside the generators (its Nr/Nt slices '
@@ -163,13 +178,15 @@ def sinr_close(a, b, rtol=1e-9):
 
 
 def mat_close(a, b, rtol=1e-9):
+    """entrywise within `rtol` of the largest entry of the two matrices — RELATIVE to their own scale
+    (a covariance at -150 dBm is compared as strictly as one of order one)"""
     a = np.asarray(a)
     b = np.asarray(b)
     if a.shape != b.shape or not (np.all(np.isfinite(a)) and np.all(np.isfinite(b))):
         return False
     if a.size == 0:
         return True
-    sc = max(1.0, float(np.abs(a).max()), float(np.abs(b).max()))
+    sc = max(float(np.abs(a).max()), float(np.abs(b).max()))
     return float(np.abs(a - b).max()) <= rtol * sc
 
 
@@ -187,12 +204,29 @@ def layout(case):
     return Nr, Nt, NtE, cr, ct
 
 
+ARR_DTYPES = {'complex128': np.complex128, 'complex64': np.complex64, 'float64': np.float64, 'float32': np.float32,
+              'int8': np.int8, 'uint8': np.uint8, 'int16': np.int16, 'uint16': np.uint16, 'int32': np.int32,
+              'int64': np.int64}
+
+
+def arr_dtype(case):
+    """element type in which the channel, the precoders and the filters are handed over"""
+    a = (case.get('present') or {}).get('arr')
+    if a:
+        return a
+    return {'complex': 'complex128', 'float': 'float64', 'int': 'int64'}[case.get('dtype', 'complex')]
+
+
 def arrays(case):
-    """numpy arrays of the case in the dtype the case asks for"""
-    kind = case.get('dtype', 'complex')
-    conv = {'complex': lambda a: np.asarray(a, dtype=complex),
-            'float': lambda a: np.asarray(np.real(a), dtype=float),
-            'int': lambda a: np.asarray(np.real(a)).round().astype(np.int64)}[kind]
+    """numpy arrays of the case in the element type the case asks for (C-contiguous)"""
+    name = arr_dtype(case)
+    dt = ARR_DTYPES[name]
+    if name.startswith('complex'):
+        conv = lambda a: np.asarray(a, dtype=dt)                          # noqa: E731
+    elif name.startswith('float'):
+        conv = lambda a: np.asarray(np.real(a), dtype=dt)                 # noqa: E731
+    else:
+        conv = lambda a: np.asarray(np.real(a)).round().astype(dt)        # noqa: E731
     big = conv(dec(case['big']))
     F = [conv(dec(x)) for x in case['F']]
     FJ = [conv(dec(x)) for x in case['FJ']]
@@ -200,16 +234,109 @@ def arrays(case):
     return big, F, FJ, U
 
 
-NUMTYPES = ['float', 'int', 'bool', 'np.int32', 'np.int64', 'np.float16', 'np.float32', 'np.float64']
+LAYOUTS = ['fortran', 'transposed', 'strided', 'reversed', 'offset']
+
+
+def relayout(a, how):
+    """the same matrix in another memory layout (never C-contiguous unless trivially so)"""
+    a = np.asarray(a)
+    if not how or a.ndim != 2:
+        return a
+    m, n = a.shape
+    if how == 'fortran':
+        return np.asfortranarray(a)
+    if how == 'transposed':
+        return np.ascontiguousarray(a.T).T
+    if how == 'strided':            # every second row / column of a buffer whose other cells hold junk
+        z = np.full((2 * m + 1, 2 * n + 1), 99, dtype=a.dtype)
+        z[::2, ::2][:m, :n] = a
+        return z[:2 * m:2, :2 * n:2]
+    if how == 'reversed':           # negative strides
+        return np.ascontiguousarray(a[::-1, ::-1])[::-1, ::-1]
+    if how == 'offset':             # a window inside a larger array
+        z = np.full((m + 3, n + 2), 77, dtype=a.dtype)
+        z[1:m + 1, 2:n + 2] = a
+        return z[1:m + 1, 2:n + 2]
+    raise KeyError(how)
+
+
+def presented(case):
+    """(big, F, FJ, U) exactly as they are handed to the implementation: element type, memory layout"""
+    big, F, FJ, U = arrays(case)
+    how = (case.get('present') or {}).get('layout')
+    if how:
+        big = relayout(big, how)
+        F = [relayout(x, how) for x in F]
+        FJ = [relayout(x, how) for x in FJ]
+        U = [relayout(x, how) for x in U]
+    return big, F, FJ, U
+
+
+def seq(case, mats):
+    """the per-user matrices in the container the case asks for"""
+    c = (case.get('present') or {}).get('container') or ('list' if case.get('as_list') else 'objarray')
+    if c == 'list':
+        return list(mats)
+    if c == 'tuple':
+        return tuple(mats)
+    return obj(mats)
+
+
+def dims_arg(case, v, scalar_ok=True):
+    """antenna numbers in the type the case asks for (array of any integer type, list, tuple, one int)"""
+    t = (case.get('present') or {}).get('dims') or 'array'
+    v = [int(x) for x in v]
+    if t == 'list':
+        return list(v)
+    if t == 'tuple':
+        return tuple(v)
+    if t == 'scalar' and scalar_ok and v and len(set(v)) == 1:
+        return int(v[0])
+    if t == 'np.scalar' and scalar_ok and v and len(set(v)) == 1:
+        return np.int16(v[0])
+    if t in ARR_DTYPES:
+        return np.array(v, dtype=ARR_DTYPES[t])
+    return np.array(v, dtype=int)
+
+
+def k_arg(case):
+    t = (case.get('present') or {}).get('K') or 'int'
+    return typed(case['K'], t)
+
+
+def pl_args(case):
+    """the path loss matrices as handed over"""
+    t = (case.get('present') or {}).get('pl') or 'float64'
+
+    def one(m, cols):
+        a = np.array(m, dtype=float).reshape(case['K'], cols)
+        if t == 'list':
+            return [list(map(float, r)) for r in a]
+        if t == 'float32':
+            return a.astype(np.float32)
+        if t in LAYOUTS:
+            return relayout(a, t)
+        return a
+    pl = one(case['pl'], case['K'])
+    ple = one(case['ple'], len(case['NtE'])) if case['ext'] else None
+    return pl, ple
+
+
+SCALAR_TYPES = {'float': float, 'int': int, 'bool': bool, 'np.int8': np.int8, 'np.uint8': np.uint8,
+                'np.int16': np.int16, 'np.uint16': np.uint16, 'np.int32': np.int32, 'np.int64': np.int64,
+                'np.float16': np.float16, 'np.float32': np.float32, 'np.float64': np.float64}
+NUMTYPES = list(SCALAR_TYPES) + ['0d:float64', '0d:int32', '0d:float32']
 
 
 def typed(v, tag):
-    """the value handed to the implementation: `v` in the numeric type named by `tag`"""
+    """the value handed to the implementation: `v` in the numeric type named by `tag`
+    (`0d:<type>`: a 0-dimensional numpy array)"""
     if v is None:
         return None
-    t = {'float': float, 'int': int, 'bool': bool, 'np.int32': np.int32, 'np.int64': np.int64,
-         'np.float16': np.float16, 'np.float32': np.float32, 'np.float64': np.float64}[tag or 'float']
-    return t(v)
+    tag = tag or 'float'
+    if tag.startswith('0d:'):
+        return np.array(v, dtype=getattr(np, tag[3:]))
+    return SCALAR_TYPES[tag](v)
 
 
 def noise_arg(case):
@@ -229,9 +356,16 @@ def p_arg(case):
     pt = case.get('ptype') or 'float'
     if pt == 'list':
         return [float(x) for x in case['P']]
+    if pt == 'tuple':
+        return tuple(float(x) for x in case['P'])
     if pt.startswith('scalar:'):
         return typed(case['P'][0], pt[7:])
-    return np.array(case['P'], dtype={'float': float, 'int': int, 'np.int32': np.int32, 'np.float32': np.float32}[pt])
+    if pt == 'strided':
+        return np.repeat(np.array(case['P'], dtype=float), 2)[::2]
+    if pt == 'broadcast':
+        return np.broadcast_to(np.float64(case['P'][0]), (case['K'],))
+    return np.array(case['P'], dtype={'float': float, 'int': int, 'np.int32': np.int32, 'np.float32': np.float32,
+                                      'np.uint8': np.uint8, 'np.int16': np.int16}[pt])
 
 
 def p_values(case):
@@ -245,20 +379,19 @@ def p_values(case):
 
 def build_channel(case):
     mu, _, _ = _impl()
-    K = case['K']
-    big, _, _, _ = arrays(case)
-    Nr = np.array(case['Nr'], dtype=int)
-    Nt = np.array(case['Nt'], dtype=int)
+    big = presented(case)[0]
+    Nr = dims_arg(case, case['Nr'])
+    Nt = dims_arg(case, case['Nt'])
     if case['ext']:
         ch = mu.MultiUserChannelMatrixExtInt()
-        ch.init_from_channel_matrix(big.copy(), Nr, Nt, K, np.array(case['NtE'], dtype=int))
+        ch.init_from_channel_matrix(big, Nr, Nt, k_arg(case), dims_arg(case, case['NtE'], scalar_ok=len(case['NtE']) == 1))
         if case['pl'] is not None:
-            ch.set_pathloss(np.array(case['pl'], dtype=float), np.array(case['ple'], dtype=float))
+            ch.set_pathloss(*pl_args(case))
     else:
         ch = mu.MultiUserChannelMatrix()
-        ch.init_from_channel_matrix(big.copy(), Nr, Nt, K)
+        ch.init_from_channel_matrix(big, Nr, Nt, k_arg(case))
         if case['pl'] is not None:
-            ch.set_pathloss(np.array(case['pl'], dtype=float))
+            ch.set_pathloss(pl_args(case)[0])
     ch.noise_var = noise_arg(case)
     return ch
 
@@ -295,11 +428,9 @@ def _run_channel(case, jp):
 
 def eval_channel(ch, case, jp):
     """every quantity the channel object `ch` reports for the scenario `case`"""
-    _, F, FJ, U = arrays(case)
-    Fs = obj(FJ if jp else F)
-    Us = obj(U)
-    if case.get('as_list'):
-        Fs, Us = list(Fs), list(Us)
+    _, F, FJ, U = presented(case)
+    Fs = seq(case, FJ if jp else F)
+    Us = seq(case, U)
     pe = pe_args(case)
     if jp:
         s = call_guard(lambda: ch.calc_JP_SINR(Fs, Us, *pe))
@@ -330,21 +461,21 @@ def _run_solver(case):
 def sync_solver(sol, case, precoders=True, filters=True):
     """hand the precoders + powers and / or the receive filters of `case` to the solver through its
     public setters"""
-    _, F, _, U = arrays(case)
+    _, F, _, U = presented(case)
     if precoders:
         pa = p_arg(case)
         if pa is None:
-            sol.set_precoders(full_F=obj(F))
-        elif np.ndim(pa) == 0 and not isinstance(pa, list):
+            sol.set_precoders(full_F=seq(case, F))
+        elif np.ndim(pa) == 0 and not isinstance(pa, (list, tuple)):
             sol.P = pa
-            sol.set_precoders(F=obj(F))
+            sol.set_precoders(F=seq(case, F))
         else:
-            sol.set_precoders(F=obj(F), P=pa)
+            sol.set_precoders(F=seq(case, F), P=pa)
     if filters:
         if case.get('set_W'):
-            sol.set_receive_filters(W=obj(U))
+            sol.set_receive_filters(W=seq(case, U))
         else:
-            sol.set_receive_filters(W_H=obj([u.conj().T for u in U]))
+            sol.set_receive_filters(W_H=seq(case, [u.conj().T for u in U]))
 
 
 def eval_solver(sol, ch2, case, synced=True):
@@ -392,7 +523,7 @@ def eval_solver(sol, ch2, case, synced=True):
         for k in range(K):
             heq = U[k].conj().T @ blocks['H'][k][k] @ full_F[k]
             contract = max(contract, float(np.abs(heq @ wh[k] - U[k].conj().T).max()) /
-                           max(1.0, float(np.abs(U[k]).max())))
+                           max(float(np.abs(U[k]).max()), 1e-300))
     s = call_guard(lambda: sol.calc_SINR())
     # zero denominator: the channel object divides Python scalars (ZeroDivisionError), the solver divides
     # with numpy and reports a non-finite entry (inf for x/0, nan for 0/0; dB values and sum capacity are
@@ -419,7 +550,7 @@ def ref_blocks(case):
     Nr, Nt, NtE, cr, ct = layout(case)
     K = case['K']
     big = np.asarray(dec(case['big']), dtype=complex)
-    if case.get('dtype', 'complex') != 'complex':
+    if not arr_dtype(case).startswith('complex'):
         big = np.real(big).astype(complex)
     pl = case['pl']
     ple = case.get('ple')
@@ -508,10 +639,17 @@ def variant_tag(case):
     tag = 'extint' if case['ext'] else 'plain'
     if 'noise' not in case:          # a session: only the class of the channel object is known
         return tag
-    if case.get('dtype', 'complex') != 'complex':
+    pr = case.get('present') or {}
+    if pr.get('arr'):
+        tag += ':R1-' + pr['arr']
+    elif case.get('dtype', 'complex') != 'complex':
         tag += ':' + case['dtype']
     if case.get('ntype') not in (None, 'float') and case['noise'] is not None:
         tag += ':noise-' + case['ntype']
+    if pr.get('layout'):
+        tag += ':R2-' + pr['layout']
+    if case.get('rclass'):
+        tag += ':' + case['rclass']
     return tag
 
 
@@ -551,7 +689,7 @@ def judge_channel(case, jp, got, q):
     qref = fp_Q(case, 'jp' if jp else 'ic', Fc, pe_value(case), noise_value(case))
     for k in range(case['K']):
         Q = np.asarray(q[k])
-        sc = max(1.0, float(np.abs(qref[k]).max()) if qref[k].size else 1.0)
+        sc = float(np.abs(qref[k]).max()) if qref[k].size else 0.0
         if Q.shape != qref[k].shape:
             return ('Q-shape:' + variant_tag(case), 'receiver %d: %s' % (k, Q.shape))
         if Q.size == 0:
@@ -663,29 +801,149 @@ def run_session(sess):
         return _run_session(sess)
 
 
+def observe(ch, sols, ext):
+    """every public observable of the channel object and of the solvers bound to it (copies)"""
+    def cp(x):
+        if x is None:
+            return None
+        if isinstance(x, np.ndarray) and x.dtype == object:
+            return [cp(y) for y in x]
+        if isinstance(x, (list, tuple)):
+            return [cp(y) for y in x]
+        return np.array(x)
+    o = {'K': ch.K, 'Nr': cp(ch.Nr), 'Nt': cp(ch.Nt), 'noise_var': ch.noise_var, 'pathloss': cp(ch.pathloss),
+         'big_H': cp(ch.big_H), 'H': cp(ch.H), 'W': cp(ch.W)}
+    if ext:
+        o['extIntK'] = ch.extIntK
+        o['extIntNt'] = cp(ch.extIntNt)
+    for i, sol in enumerate(sols):
+        if sol is not None:
+            o['sol%d' % i] = {'F': cp(sol.F), 'full_F': cp(sol.full_F) if sol.F is not None else None,
+                              'P': cp(sol.P), 'Ns': cp(sol.Ns), 'W_H': cp(sol.W_H), 'noise_var': sol.noise_var}
+    return o
+
+
+def same_obs(a, b, path=''):
+    """None | name of the first observable that differs"""
+    if isinstance(a, dict):
+        for k in a:
+            r = same_obs(a[k], b.get(k) if isinstance(b, dict) else None, path + '.' + str(k))
+            if r:
+                return r
+        return None
+    if isinstance(a, list):
+        if not isinstance(b, list) or len(a) != len(b):
+            return path
+        for i, (x, y) in enumerate(zip(a, b)):
+            r = same_obs(x, y, path + '[%d]' % i)
+            if r:
+                return r
+        return None
+    if a is None or b is None:
+        return None if (a is None and b is None) else path
+    a1, b1 = np.asarray(a), np.asarray(b)
+    if a1.shape != b1.shape or a1.dtype != b1.dtype or not np.array_equal(a1, b1, equal_nan=a1.dtype.kind in 'fc'):
+        return path
+    return None
+
+
+def rejected_call(name, ch, sol, c, ext):
+    """perform ONE call that the public API must refuse (bad argument / guard); returns the exception"""
+    K = c['K']
+    Nr, Nt, NtE = list(c['Nr']), list(c['Nt']), list(c['NtE'])
+    more = NtE + [1] if ext else []             # announces one more external source than the object has
+    fewer = NtE[:-1] if len(NtE) > 1 else (NtE + [2] if ext else [])
+    extra = (np.array(more, dtype=int),) if ext else ()
+    extra2 = (np.array(fewer, dtype=int),) if ext else ()
+    _, F, _, U = arrays(c)
+    try:
+        if name == 'init:shape':
+            ch.init_from_channel_matrix(np.ones((sum(Nr) + 1, sum(Nt) + sum(more)), dtype=complex),
+                                        np.array(Nr), np.array(Nt), K, *extra)
+        elif name == 'init:shape-fewer-sources':
+            ch.init_from_channel_matrix(np.ones((sum(Nr), sum(Nt) + sum(fewer) + 1), dtype=complex),
+                                        np.array(Nr), np.array(Nt), K, *extra2)
+        elif name == 'init:K':
+            ch.init_from_channel_matrix(np.ones((sum(Nr), sum(Nt) + sum(more)), dtype=complex),
+                                        np.array(Nr), np.array(Nt), K + 1, *extra)
+        elif name == 'randomize:K':
+            ch.randomize(np.array(Nr), np.array(Nt), K + 1, *extra)
+        elif name == 'pathloss:shape':
+            if ext:
+                ch.set_pathloss(np.ones((K, K)), np.ones((K + 1, len(NtE))))
+            else:
+                ch.set_pathloss(np.ones((max(K - 1, 0), max(K - 1, 0))))
+        elif name == 'pathloss:missing-ext':
+            ch.set_pathloss(np.ones((K, K)), None)
+        elif name == 'noise:negative':
+            ch.noise_var = -1.0
+        elif name == 'calc:bad-F':
+            bad = obj([np.ones((f.shape[0] + 1, max(f.shape[1], 1)), dtype=complex) for f in F])
+            ch.calc_SINR(bad, obj(U))
+        elif name == 'precoders:none':
+            sol.set_precoders()
+        elif name == 'filters:none':
+            sol.set_receive_filters()
+        elif name == 'filters:both':
+            sol.set_receive_filters(W_H=obj([u.conj().T for u in U]), W=obj(U))
+        elif name == 'P:negative':
+            sol.P = -1.0
+        elif name == 'P:zero':
+            sol.P = 0
+        elif name == 'P:length':
+            sol.P = np.ones(K + 1)
+        elif name == 'P:one-negative':
+            sol.P = np.array([1.0] * (K - 1) + [-2.0])
+        elif name == 'randomizeF:bad-P':
+            sol.randomizeF(np.array(c['Ns'], dtype=int), -1.0)
+        else:
+            raise KeyError(name)
+    except KeyError:
+        raise
+    except Exception as e:      # noqa: the refusal
+        return e
+    return None
+
+
+REJECTS_CHANNEL = ['init:shape', 'init:K', 'randomize:K', 'pathloss:shape', 'noise:negative', 'calc:bad-F']
+REJECTS_EXT = ['init:shape-fewer-sources', 'pathloss:missing-ext']
+REJECTS_SOLVER = ['precoders:none', 'filters:none', 'filters:both', 'P:negative', 'P:zero', 'P:length',
+                  'P:one-negative', 'randomizeF:bad-P']
+
+
+def second_case(c, F2, U2):
+    """the scenario as the SECOND solver sharing the channel object sees it: its own precoders (handed
+    over scaled, no power vector) and filters"""
+    return dict(c, F=F2, U=U2, P=None, ptype='float', set_W=False, Ns=[f['shape'][1] for f in F2])
+
+
 def _run_session(sess):
     mu, ia, _ = _impl()
     ext = sess['ext']
     ch = mu.MultiUserChannelMatrixExtInt() if ext else mu.MultiUserChannelMatrix()
     sol = None
+    sol2 = None                 # a second solver bound to the SAME channel object (R7: shared objects)
     sol_ok = False
     cur_big = None
     out = []
     cur_F = None
+    F2 = U2 = None
+    sol2_layout = None
+    held = []                   # (label, array as returned earlier, copy taken then) — R3: outputs stay put
     for st in sess['steps']:
         c = dict(st['case'])
         ops = st['ops']
         K = c['K']
         if c['F'] is None:      # inherited from the previous step (or about to be drawn by randomizeF)
             c['F'] = cur_F
-        Nr = np.array(c['Nr'], dtype=int)
-        Nt = np.array(c['Nt'], dtype=int)
-        extra = (np.array(c['NtE'], dtype=int),) if ext else ()
+        Nr = dims_arg(c, c['Nr'])
+        Nt = dims_arg(c, c['Nt'])
+        extra = (dims_arg(c, c['NtE'], scalar_ok=len(c['NtE']) == 1),) if ext else ()
         if ops['real'] == 'init':
-            ch.init_from_channel_matrix(arrays(c)[0].copy(), Nr, Nt, K, *extra)
+            ch.init_from_channel_matrix(presented(c)[0], Nr, Nt, k_arg(c), *extra)
         elif ops['real'] == 'randomize':
             ch.set_channel_seed(ops['seed'])
-            ch.randomize(Nr, Nt, K, *extra)
+            ch.randomize(Nr, Nt, k_arg(c), *extra)
             # the raw realisation the object now stores (before any path loss)
             c['big'] = enc(np.array(ch._big_H_no_pathloss, dtype=complex))
         else:
@@ -693,15 +951,15 @@ def _run_session(sess):
         cur_big = c['big']
         if ops['pl'] == 'set':
             if ext:
-                ch.set_pathloss(np.array(c['pl'], dtype=float), np.array(c['ple'], dtype=float))
+                ch.set_pathloss(*pl_args(c))
             else:
-                ch.set_pathloss(np.array(c['pl'], dtype=float))
+                ch.set_pathloss(pl_args(c)[0])
         elif ops['pl'] == 'none':
             ch.set_pathloss(None)
         if ops['noise'] == 'set':
             ch.noise_var = noise_arg(c)
         if ops.get('post'):
-            ch.set_post_filter(obj(arrays(c)[3]))
+            ch.set_post_filter(seq(c, presented(c)[3]))
         if sol is None:
             sol = ia.IASolverBaseClass(ch)
         if ops['sol'] != 'sync' and not sol_ok:
@@ -722,6 +980,33 @@ def _run_session(sess):
             c['F'] = [enc(np.array(sol.F[k], dtype=complex)) for k in range(K)]
         cur_F = c['F']
         rec = {'case': c, 'ops': ops}
+        # R7: the second solver gets its own precoders / filters when the layout changed (or first), and is
+        # otherwise left alone while the first solver and the channel object are being driven
+        lay = (tuple(c['Nr']), tuple(c['Nt']), tuple(c['Ns']))
+        if sol2 is None:
+            sol2 = ia.IASolverBaseClass(ch)
+        sync2 = (sol2_layout != lay) or bool(ops.get('sol2'))
+        if sync2:
+            F2 = [enc(np.conj(dec(f)) * (1 + 0.5j)) for f in c['F']]
+            U2 = [enc(np.asarray(dec(u), dtype=complex) * 1j) for u in c['U']]
+            sync_solver(sol2, second_case(c, F2, U2))
+            sol2_layout = lay
+        # R4: calls the API must refuse — each must raise and leave EVERY observable as it was
+        rec['rejected'] = []
+        for name in ops.get('reject', []):
+            before = observe(ch, [sol, sol2], ext)
+            exc = rejected_call(name, ch, sol, c, ext)
+            try:
+                after = observe(ch, [sol, sol2], ext)
+                changed = same_obs(before, after)
+            except Exception as e:      # the object can no longer even be observed
+                changed = 'unobservable:' + type(e).__name__
+            rec['rejected'].append({'call': name, 'raised': None if exc is None else type(exc).__name__,
+                                    'changed': changed})
+        if any(r['changed'] or r['raised'] is None for r in rec['rejected']):
+            rec['abort'] = True         # the object is no longer in a known state: the history ends here
+            out.append(rec)
+            return out
         for what in ops['order']:
             if what == 'sol':
                 try:
@@ -731,6 +1016,23 @@ def _run_session(sess):
                 sol_ok = isinstance(rec['sol'], dict)
             else:
                 rec[what] = eval_channel(ch, c, what == 'jp')
+                if ops.get('repeat'):       # R7: asking again changes nothing
+                    rec[what + '2'] = eval_channel(ch, c, what == 'jp')
+        c2 = second_case(c, F2, U2)
+        try:
+            rec['sol2'] = eval_solver(sol2, ch, c2, synced=sync2)
+        except np.linalg.LinAlgError:
+            rec['sol2'] = None
+        rec['case2'] = c2
+        # R3: what earlier steps returned has not moved
+        rec['moved'] = [lab for lab, arr, cp in held if not (arr.shape == cp.shape and np.array_equal(arr, cp))]
+        for what in ('ic', 'jp'):
+            for k, q in enumerate(rec[what][1]):
+                held.append(('%s.Q[%d]@step%d' % (what, k, len(out)), q, np.array(q)))
+        if isinstance(rec.get('sol'), dict):
+            for k, q in enumerate(rec['sol']['Q']):
+                held.append(('sol.Q[%d]@step%d' % (k, len(out)), q, np.array(q)))
+        held = held[-40:]
         out.append(rec)
     return out
 
@@ -757,7 +1059,14 @@ def o_session(sess):
     tag = 'extint' if sess['ext'] else 'plain'
     for i, rec in enumerate(run_session(sess)):
         c, ops = rec['case'], rec['ops']
-        where = '@%s/%s:%s' % (ops['real'], ops['pl'], tag)
+        for rj in rec.get('rejected', []):
+            if rj['raised'] is None:
+                return ('R4:not-refused:%s:%s' % (rj['call'], tag), 'step %d' % i)
+            if rj['changed']:
+                return ('R4:refused-call-changed-the-object:%s:%s' % (rj['call'], tag),
+                        'step %d: %s differs after the %s' % (i, rj['changed'], rj['raised']))
+        rj = rec.get('rejected') or []
+        where = '@%s/%s%s:%s' % (ops['real'], ops['pl'], ('+after-refused-' + rj[0]['call']) if rj else '', tag)
         for what, name in (('ic', 'calc_SINR'), ('jp', 'calc_JP_SINR')):
             r = judge_channel(c, what == 'jp', *rec[what])
             if r is not None:
@@ -765,6 +1074,18 @@ def o_session(sess):
             d = same_reports(rec[what], run_channel(c, what == 'jp'))
             if d is not None:
                 return ('%s:differs-from-fresh-object%s' % (name, where), 'step %d: %s' % (i, d))
+        if rec.get('moved'):
+            return ('R3:earlier-output-changed:%s' % tag, 'step %d: %s' % (i, rec['moved'][:3]))
+        for what in ('ic', 'jp'):
+            if what + '2' in rec:
+                d = same_reports(rec[what], rec[what + '2'])
+                if d is not None:
+                    return ('R7:second-call-differs:%s:%s' % (what, tag), 'step %d: %s' % (i, d))
+        o2 = rec.get('sol2')
+        if isinstance(o2, dict):
+            r = judge_solver(rec['case2'], o2)
+            if r is not None:
+                return ('R7:second-solver:%s%s' % (r[0].split(':')[0], where), 'step %d: %s' % (i, r[1]))
         o = rec.get('sol')
         if isinstance(o, dict) and ops['sol'] != 'untouched':
             # the equivalent channel passed the conditioning pre-check, so np.linalg.solve is accurate: a
@@ -789,8 +1110,142 @@ def o_session(sess):
     return None
 
 
+def o_immutable(case):
+    """R3: the arrays handed to the code are left exactly as they were (values, dtype, flags); what the code
+    returns shares no memory with them; what an earlier call returned does not move when later calls are
+    made, when the caller overwrites its own arrays afterwards, or when the caller scribbles on a result"""
+    import copy
+    mu, ia, _ = _impl()
+    tag = variant_tag(case)
+    K = case['K']
+    with np.errstate(all='ignore'):
+        big, F, FJ, U = presented(case)
+        WH = [np.array(u.conj().T) for u in U]
+        handed = {'big': big, 'Nr': dims_arg(case, case['Nr']), 'Nt': dims_arg(case, case['Nt'])}
+        for k in range(K):
+            handed['F[%d]' % k], handed['FJ[%d]' % k], handed['U[%d]' % k] = F[k], FJ[k], U[k]
+            handed['W_H[%d]' % k] = WH[k]
+        if case['ext']:
+            handed['NtE'] = dims_arg(case, case['NtE'], scalar_ok=len(case['NtE']) == 1)
+        if case['pl'] is not None:
+            pl, ple = pl_args(case)
+            handed['pathloss'] = pl
+            if case['ext']:
+                handed['ext_pathloss'] = ple
+        pa = p_arg(case)
+        if isinstance(pa, np.ndarray):
+            handed['P'] = pa
+        snap = copy.deepcopy(handed)
+        flags = {n: (a.flags.writeable if isinstance(a, np.ndarray) else None) for n, a in handed.items()}
+        ext = case['ext']
+        ch = mu.MultiUserChannelMatrixExtInt() if ext else mu.MultiUserChannelMatrix()
+        ch.init_from_channel_matrix(big, handed['Nr'], handed['Nt'], k_arg(case), *((handed['NtE'],) if ext else ()))
+        if case['pl'] is not None:
+            ch.set_pathloss(*((handed['pathloss'], handed['ext_pathloss']) if ext else (handed['pathloss'],)))
+        ch.noise_var = noise_arg(case)
+        pe = pe_args(case)
+        outs = {}
+
+        def ask(label):
+            s = call_guard(lambda: ch.calc_SINR(seq(case, F), seq(case, U), *pe))
+            if s[0] == 'ok':
+                for k in range(K):
+                    outs['%s.SINR[%d]' % (label, k)] = s[1][k]
+            sj = call_guard(lambda: ch.calc_JP_SINR(seq(case, FJ), seq(case, U), *pe))
+            if sj[0] == 'ok':
+                for k in range(K):
+                    outs['%s.JP_SINR[%d]' % (label, k)] = sj[1][k]
+            for k in range(K):
+                outs['%s.Q[%d]' % (label, k)] = ch.calc_Q(k, seq(case, F), *pe)
+                outs['%s.JP_Q[%d]' % (label, k)] = ch.calc_JP_Q(k, seq(case, FJ), *pe)
+            if ext:
+                for k, r in enumerate(ch.calc_cov_matrix_extint_plus_noise(*pe)):
+                    outs['%s.Re[%d]' % (label, k)] = r
+        ask('first')
+        sol = None
+        if case.get('solver'):
+            sol = ia.IASolverBaseClass(ch)
+            if pa is None:
+                sol.set_precoders(full_F=seq(case, F))
+            elif np.ndim(pa) == 0 and not isinstance(pa, (list, tuple)):
+                sol.P = pa
+                sol.set_precoders(F=seq(case, F))
+            else:
+                sol.set_precoders(F=seq(case, F), P=pa)
+            sol.set_receive_filters(W_H=seq(case, WH))
+            try:
+                r = call_guard(lambda: sol.calc_SINR())
+                if r[0] == 'ok':
+                    for k in range(K):
+                        outs['solver.SINR[%d]' % k] = r[1][k]
+                for k in range(K):
+                    outs['solver.Q[%d]' % k] = sol.calc_Q(k)
+                    outs['solver.full_F[%d]' % k] = sol.full_F[k]
+            except np.linalg.LinAlgError:
+                pass
+
+        def inputs_intact(when):
+            for n, a in handed.items():
+                b = snap[n]
+                if isinstance(a, np.ndarray):
+                    if a.dtype != b.dtype or a.shape != b.shape or not np.array_equal(a, b):
+                        return ('R3:input-modified:%s:%s' % (n.split('[')[0], tag), '%s %s' % (n, when))
+                    if a.flags.writeable != flags[n]:
+                        return ('R3:input-flags-modified:%s:%s' % (n.split('[')[0], tag), '%s %s' % (n, when))
+                elif a != b:
+                    return ('R3:input-modified:%s:%s' % (n.split('[')[0], tag), '%s %s' % (n, when))
+            return None
+        r = inputs_intact('after the calls')
+        if r:
+            return r
+        for lab, o in outs.items():
+            o = np.asarray(o)
+            if o.dtype == object:
+                continue
+            if o.dtype.kind not in 'fc' or o.dtype.itemsize < 8:
+                return ('R3:result-dtype:%s:%s' % (lab.split('.')[1].split('[')[0], tag), '%s has dtype %s' % (lab, o.dtype))
+            for n, a in handed.items():
+                if isinstance(a, np.ndarray) and o.size and a.size and np.shares_memory(o, a):
+                    return ('R3:output-aliases-input:%s:%s' % (lab.split('.')[1].split('[')[0], tag), '%s shares memory with %s' % (lab, n))
+        kept = {lab: np.array(o) for lab, o in outs.items()}
+        first = dict(outs)
+        # later calls, the caller re-using its own arrays, the caller scribbling on results
+        for n, a in handed.items():
+            if isinstance(a, np.ndarray) and a.flags.writeable and n not in ('Nr', 'Nt', 'NtE'):
+                a[...] = 0
+        for lab, o in list(first.items()):
+            if lab.startswith('first.Q') or lab.startswith('first.Re'):
+                pass
+        _, F, FJ, U = presented(case)       # fresh copies of the same values for the second round
+        ask('second')
+        for lab in list(kept):
+            if lab.startswith('first.'):
+                twin = outs.get('second.' + lab[6:])
+                if twin is not None and not (np.array_equal(np.asarray(twin), kept[lab]) or
+                                             mat_close(np.asarray(twin), kept[lab], rtol=1e-12)):
+                    return ('R3:object-follows-the-callers-array:%s:%s' % (lab.split('.')[1].split('[')[0], tag),
+                            '%s differs after the caller overwrote the arrays it had handed over' % lab)
+        # scribble on what was returned, change the object, ask again
+        for lab, o in first.items():
+            if isinstance(o, np.ndarray) and o.flags.writeable and o.dtype != object and lab.startswith('second.'):
+                o[...] = -7
+        ch.noise_var = 3.0
+        ask('third')
+        ch.noise_var = noise_arg(case)
+        ask('fourth')
+        for lab, cp in kept.items():
+            if lab.startswith('first.'):
+                if not np.array_equal(np.asarray(first[lab]), cp):
+                    return ('R3:earlier-output-changed:%s:%s' % (lab.split('.')[1].split('[')[0], tag), lab)
+                twin = outs.get('fourth.' + lab[6:])
+                if twin is not None and not mat_close(np.asarray(twin), cp, rtol=1e-12) and not np.array_equal(np.asarray(twin), cp):
+                    return ('R3:result-depends-on-scribbled-output:%s:%s' % (lab.split('.')[1].split('[')[0], tag), lab)
+    return None
+
+
 ORACLES = {
     'session': o_session,
+    'immutability': o_immutable,
     'calc_SINR': o_calc_SINR,
     'calc_JP_SINR': o_calc_JP_SINR,
     'calc_SINR.rescaled-filter': o_scale,
@@ -925,13 +1380,13 @@ class Gen:
         rng = self.rng
 
         def scalar(v, t):
-            if t in ('int', 'np.int32', 'np.int64'):
-                return 0 if v == 0 else rng.choice([1, 2, 3, 7])
             if t == 'bool':
                 return 0 if v == 0 else 1
+            if 'int' in t:                      # Python int, numpy integers of every width, 0-d integer arrays
+                return 0 if v == 0 else rng.choice([1, 2, 3, 7])
             if t == 'np.float16':
                 return float(np.float16(min(max(v, 1e-3), 1e3))) if v else 0.0
-            if t == 'np.float32':
+            if t.endswith('float32'):
                 return float(np.float32(v))
             return float(v)
         if c['noise'] is not None:
@@ -942,10 +1397,15 @@ class Gen:
             c['pe'] = scalar(c['pe'], c['petype'])
         if c['P'] is not None:
             pt = rng.choice(['float', 'float', 'int', 'np.int32', 'np.float32', 'list', 'scalar:int', 'scalar:float',
-                             'scalar:np.float32', 'scalar:np.int64'])
+                             'scalar:np.float32', 'scalar:np.int64', 'np.uint8', 'np.int16', 'tuple', 'strided',
+                             'broadcast', 'scalar:np.uint8', 'scalar:0d:float64'])
             K = c['K']
-            if pt in ('int', 'np.int32'):
+            if pt in ('int', 'np.int32', 'np.uint8', 'np.int16'):
                 c['P'] = [rng.choice([1, 2, 4, 9]) for _ in range(K)]
+            elif pt in ('broadcast', 'scalar:0d:float64'):
+                c['P'] = [float(c['P'][0])] * K
+            elif pt == 'scalar:np.uint8':
+                c['P'] = [rng.choice([1, 2, 4])] * K
             elif pt == 'np.float32':
                 c['P'] = [rng.choice([0.25, 1.0, 4.0, 2.25, 9.0]) for _ in range(K)]
             elif pt in ('scalar:int', 'scalar:np.int64'):
@@ -955,6 +1415,114 @@ class Gen:
             elif pt == 'scalar:float':
                 c['P'] = [float(c['P'][0])] * K
             c['ptype'] = pt
+        return c
+
+    # ---------------------------------------------------------------- robustness classes
+    def present(self, c, arr=None, layout=None):
+        """draw HOW the scenario is handed over (R1 element types, R2 memory layout / containers)"""
+        rng = self.rng
+        c['present'] = {'arr': arr, 'layout': layout,
+                        'container': rng.choice(['objarray', 'list', 'tuple']),
+                        'dims': rng.choice(['array', 'list', 'tuple', 'scalar', 'np.scalar', 'int8', 'uint8', 'int16',
+                                            'uint16', 'int32']),
+                        'K': rng.choice(['int', 'np.int8', 'np.uint16', 'np.int64', '0d:int32']),
+                        'pl': rng.choice(['float64', 'list', 'float32' if c['kind'] in ('gint', 'rint') else 'float64']
+                                         + LAYOUTS[:3])}
+        c.pop('as_list', None)
+        return c
+
+    def r1_case(self):
+        """R1: the same VALUES in narrow element types (arrays of int8 … int64, uint8/16, float32,
+        complex64; scalars of every numeric type; lists / tuples)"""
+        rng = self.rng
+        self.n1 = getattr(self, 'n1', -1) + 1
+        arr = ['int8', 'uint8', 'int16', 'uint16', 'int32', 'int64', 'float32', 'complex64'][self.n1 % 8]
+        fam = 'gint' if arr == 'complex64' else 'uint' if arr.startswith('uint') else 'rint'
+        c = self.case(kind='gint' if fam == 'gint' else 'rint', solver_ok=True)
+        if fam == 'uint':
+            for f in ('big',):
+                c[f] = enc(np.abs(np.real(dec(c[f]))).astype(complex))
+            for f in ('F', 'FJ', 'U'):
+                c[f] = [enc(np.abs(np.real(dec(x))).astype(complex)) for x in c[f]]
+        self.present(c, arr=arr, layout=None)
+        c['rclass'] = 'R1'
+        return c
+
+    def r2_case(self):
+        """R2: non-C-contiguous inputs (Fortran order, transposed / strided / reversed / offset views),
+        0-d arrays for the scalars, a user with ZERO streams (zero-length axes)"""
+        rng = self.rng
+        c = self.case(solver_ok=True)
+        c['dtype'] = 'complex'
+        self.n2 = getattr(self, 'n2', -1) + 1
+        self.present(c, arr=None, layout=LAYOUTS[self.n2 % len(LAYOUTS)])
+        if c['noise'] is not None and rng.chance(0.5):
+            c['ntype'] = rng.choice(['0d:float64', '0d:int32', '0d:float32'])
+            c['noise'] = 0 if c['noise'] == 0 else (rng.choice([1, 2, 3]) if 'int' in c['ntype'] else float(np.float32(c['noise'])))
+        if c['ext'] and c['pe'] is not None and rng.chance(0.5):
+            c['petype'] = '0d:float64'
+        if c['K'] >= 2 and rng.chance(0.3):
+            k = rng.below(c['K'])
+            c['Ns'][k] = 0
+            for f in ('F', 'FJ', 'U'):
+                m = dec(c[f][k])
+                c[f][k] = enc(m[:, :0])
+            c['scale'][k] = []
+            c['zero_streams'] = True
+        c['rclass'] = 'R2'
+        return c
+
+    def r5_case(self):
+        """R5: boundary values — path losses exactly 0 and exactly 1, noise variance exactly 0 / 0.0 /
+        None / 1, external power 0 / 1, unit powers, a single user / stream / antenna, sizes at
+        prime / power-of-two boundaries"""
+        rng = self.rng
+        K = rng.choice([1, 2, 3])
+        sizes = [1, 2, 3, 4, 5, 7, 8, 9]
+        Nr = [rng.choice(sizes) for _ in range(K)]
+        Nt = [rng.choice(sizes) for _ in range(K)]
+        Ns = [rng.randint(1, min(Nr[k], Nt[k], 3)) for k in range(K)]
+        c = self.case(kind=rng.choice(['gint', 'gauss']), K=K, dims=(Nr, Nt, Ns), solver_ok=True, retype=False)
+        c['pl'] = [[rng.choice([0.0, 1.0, 1.0, 0.25]) for _ in range(K)] for _ in range(K)]
+        c['ple'] = [[rng.choice([0.0, 1.0, 4.0]) for _ in c['NtE']] for _ in range(K)]
+        c['noise'] = rng.choice([None, 0, 0.0, 1, 1.0])
+        c['ntype'] = 'int' if isinstance(c['noise'], int) else 'float'
+        if c['ext']:
+            c['pe'] = rng.choice([0, 0.0, 1, 1.0, None])
+            c['petype'] = 'int' if isinstance(c['pe'], int) else 'float'
+        if c['P'] is not None:
+            c['P'] = [1.0] * K
+        c['rclass'] = 'R5'
+        return c
+
+    def r6_case(self):
+        """R6: scale — (a) path loss -100 … -130 dB, noise 1e-15 … 1e-20, filters rescaled by 1e-7 … 1e-9;
+        (b) channel, precoders and filters each multiplied by 1e-12 … 1e12 (noise following the received
+        power).  The SINR is a ratio: any absolute threshold hidden in the code shows."""
+        rng = self.rng
+        c = self.case(kind='gauss', solver_ok=True, retype=False)
+        K = c['K']
+        if rng.chance(0.5):
+            c['pl'] = [[10.0 ** rng.uniform(-13, -10) for _ in range(K)] for _ in range(K)]
+            c['ple'] = [[10.0 ** rng.uniform(-13, -10) for _ in c['NtE']] for _ in range(K)]
+            c['noise'] = rng.choice([None, 10.0 ** rng.uniform(-20, -15), 10.0 ** rng.uniform(-20, -15)])
+            if K == 1 and c['Ns'][0] == 1 and not c['ext'] and c['noise'] is None:
+                c['noise'] = 10.0 ** rng.uniform(-20, -15)
+            a = [10.0 ** rng.uniform(-9, -7) for _ in range(K)]
+            c['U'] = [enc(dec(u) * a[k]) for k, u in enumerate(c['U'])]
+            c['r6'] = 'low-power'
+        else:
+            ea, eb, ec = rng.uniform(-12, 12), rng.uniform(-6, 6), rng.uniform(-9, 9)
+            c['big'] = enc(dec(c['big']) * 10.0 ** ea)
+            c['F'] = [enc(dec(x) * 10.0 ** eb) for x in c['F']]
+            c['FJ'] = [enc(dec(x) * 10.0 ** eb) for x in c['FJ']]
+            c['U'] = [enc(dec(x) * 10.0 ** ec) for x in c['U']]
+            if c['noise']:
+                c['noise'] = c['noise'] * 10.0 ** (2 * ea + 2 * eb)
+            if c['ext'] and c['pe']:
+                c['pe'] = c['pe'] * 10.0 ** (2 * eb)
+            c['r6'] = 'global'
+        c['rclass'] = 'R6'
         return c
 
     def session(self, n_steps=None, ext=None):
@@ -1037,6 +1605,11 @@ class Gen:
             steps.append({'case': c, 'ops': {'real': real, 'seed': rng.below(1 << 31), 'pl': pl, 'noise': noise,
                                              'post': rng.chance(0.3), 'sol': sol, 'order': order(),
                                              'layout': how}})
+        pool = REJECTS_CHANNEL + REJECTS_SOLVER + (REJECTS_EXT if ext else [])
+        for st in steps:
+            st['ops']['reject'] = [rng.choice(pool) for _ in range(rng.choice([0, 0, 1, 1, 2, 3]))]
+            st['ops']['repeat'] = rng.chance(0.25)
+            st['ops']['sol2'] = rng.chance(0.15)
         return {'ext': bool(ext), 'kind': kind, 'steps': steps}
 
     def zero_case(self):
@@ -1082,6 +1655,27 @@ def branches_of(ctx, case):
         ctx.branch('pe:default' if case['pe'] is None else 'pe:zero' if case['pe'] == 0.0 else 'pe:pos')
     ctx.branch('kind:' + case['kind'])
     ctx.branch('dtype:' + case.get('dtype', 'complex'))
+    pr = case.get('present') or {}
+    if pr.get('arr'):
+        ctx.branch('R1:arr-' + pr['arr'])
+    if pr.get('layout'):
+        ctx.branch('R2:layout-' + pr['layout'])
+    if pr:
+        ctx.branch('R1:container-' + pr['container'])
+        ctx.branch('R1:dims-' + pr['dims'])
+        ctx.branch('R1:K-' + pr['K'])
+    if case.get('zero_streams'):
+        ctx.branch('R2:zero-streams')
+    for f, t in (('noise', 'ntype'), ('pe', 'petype')):
+        if case.get(f) is not None and str(case.get(t, '')).startswith('0d:'):
+            ctx.branch('R2:0d-' + f)
+    if case.get('rclass') == 'R5':
+        if case['pl'] is not None and any(x == 0.0 for r in case['pl'] for x in r):
+            ctx.branch('R5:pathloss-zero')
+        if max(case['Nr'] + case['Nt']) >= 7:
+            ctx.branch('R5:size-boundary')
+    if case.get('r6'):
+        ctx.branch('R6:' + case['r6'])
     if case['noise'] is not None:
         ctx.branch('noise-type:' + (case.get('ntype') or 'float'))
     if case['ext'] and case['pe'] is not None:
@@ -1152,15 +1746,27 @@ def correspondence(ctx, cases):
     jobs, lines = [], []
     for i, case in enumerate(cases):
         branches_of(ctx, case)
+        if case.get('rclass'):
+            ctx.branch('corr:' + case['rclass'])
         for jp in (False, True):
-            got, q = run_channel(case, jp)
+            try:
+                got, q = run_channel(case, jp)
+            except Exception as e:      # the oracles report it with the input; here the tie is broken
+                ctx.corr(('calc_JP_SINR' if jp else 'calc_SINR') + ':' + variant_tag(case), case, 'a result',
+                         'exception ' + type(e).__name__, key=case_key(case, i) + (jp, 'exc'))
+                continue
             jobs.append(('jp' if jp else 'ic', i, case, got, q))
             lines.append(chan_line(case, jp))
             ctx.branch('jp' if jp else 'ic')
             if got[0] == 'error':
                 ctx.branch('zero-division')
         if case.get('solver'):
-            out = run_solver(case)
+            try:
+                out = run_solver(case)
+            except Exception as e:
+                ctx.corr('IASolver.calc_SINR:' + variant_tag(case), case, 'a result', 'exception ' + type(e).__name__,
+                         key=case_key(case, i) + ('sol', 'exc'))
+                continue
             if out is None:
                 ctx.branch('solver:singular-equivalent-channel(skipped)')
                 continue
@@ -1241,8 +1847,25 @@ def corr_sessions(ctx, sessions):
             ctx.branch('session:%s/%s:%s' % (ops['real'], ops['pl'], 'extint' if sess['ext'] else 'plain'))
             ctx.branch('session:layout-' + ops.get('layout', 'first'))
             ctx.branch('session:solver-' + ops['sol'])
+            for rj in rec.get('rejected', []):
+                ctx.branch('R4:' + rj['call'])
+                ctx.branch('corr:R4')
+            ctx.branch('corr:R7')
+            ctx.branch('corr:R3')
+            if isinstance(rec.get('sol2'), dict):
+                ctx.branch('R7:second-solver')
+                jobs.append(('solver', (si, i, 2), rec['case2'], rec['sol2'], None))
+                lines.append(solver_line(rec['case2'], rec['sol2']['full_W_H']))
+            if rec.get('moved'):
+                ctx.corr('session:R3:earlier-output-unchanged', c, 'unchanged', 'changed: %s' % rec['moved'][:3])
+            for rj in rec.get('rejected', []):
+                if rj['changed'] or rj['raised'] is None:
+                    ctx.corr('session:R4:refused-call-leaves-object-unchanged', c, 'refused, unchanged',
+                             '%s: raised %s, changed %s' % (rj['call'], rj['raised'], rj['changed']))
             if c['noise'] is not None:
                 ctx.branch('noise-type:' + (c.get('ntype') or 'float'))
+            if rec.get('abort'):
+                continue
             for what in ('ic', 'jp'):
                 jobs.append((what, (si, i), c, rec[what][0], rec[what][1]))
                 lines.append(chan_line(c, what == 'jp'))
@@ -1331,6 +1954,18 @@ def gen_cases(ctx, n):
     return cases
 
 
+def gen_rcases(ctx, n):
+    """n scenarios of each of the robustness classes that are properties of ONE call (R1 R2 R5 R6)"""
+    g = Gen(ctx.rng.fork('rclasses'), ctx.tier)
+    out = []
+    for i in range(n):
+        for mk in (g.r1_case, g.r2_case, g.r5_case, g.r6_case):
+            c = mk()
+            c['solver'] = all(0 < c['Ns'][k] <= min(c['Nr'][k], c['Nt'][k]) for k in range(c['K']))
+            out.append(c)
+    return out
+
+
 def layout_sweep(ctx):
     """thorough tier: every antenna/stream layout with K <= 3 users, 1..2 antennas per side and
     1..2 streams per user, plain and with external interference (values seeded)"""
@@ -1359,14 +1994,21 @@ def gen_sessions(ctx, n):
 def oracles(ctx, cases, sessions=()):
     for i, sess in enumerate(sessions):
         run_oracle(ctx, 'session', sess, key=('session', i, sess['ext'], sess['kind'], len(sess['steps'])))
+        for r in ('R3', 'R4', 'R7'):
+            ctx.branch('oracle:' + r)
     for i, case in enumerate(cases):
         key = case_key(case, i)
+        if case.get('rclass'):
+            ctx.branch('oracle:' + case['rclass'])
         run_oracle(ctx, 'calc_SINR', case, key=key)
         run_oracle(ctx, 'calc_JP_SINR', case, key=key)
-        if case.get('dtype', 'complex') == 'complex':
+        if arr_dtype(case) == 'complex128':
             run_oracle(ctx, 'calc_SINR.rescaled-filter', case, key=key)
         if case.get('solver'):
             run_oracle(ctx, 'IASolver.calc_SINR', case, key=key)
+        if i % 3 == 0 or case.get('rclass'):
+            run_oracle(ctx, 'immutability', case, key=key)
+            ctx.branch('oracle:R3')
     rng = ctx.rng.fork('cap')
     for _ in range(20):
         run_oracle(ctx, 'calc_shannon_sum_capacity',
@@ -1385,7 +2027,11 @@ def check(ctx):
                 'dtype. Sessions: one channel object + one solver re-used over 2..6 scenarios (new realisation by '
                 'init_from_channel_matrix / randomize, same or new layout, path loss kept / set / removed, noise, '
                 'post filters, solver re-synchronised or left alone), everything re-checked after every step '
-                'against the model, first principles and a fresh object. non-trivial = distinct (layout, class '
+                'against the model, first principles and a fresh object; sessions also contain refused calls (R4), '
+                'repeated calls and a second solver on the same channel object (R7), and watch earlier results (R3). '
+                'Robustness scenarios R1 (narrow element types), R2 (memory layouts, 0-d, zero streams), R5 '
+                '(boundary values), R6 (extreme scales), each also through the immutability oracle (R3). '
+                'non-trivial = distinct (layout, class '
                 'of channel object, generator kind, noise kind, path-loss presence, index, code path)')
     quick = ctx.tier == 'quick'
     core.prove(ctx, MODULE, generated=[], drivers=[DRIVER], scratch=ctx.scratch)
@@ -1398,11 +2044,19 @@ def check(ctx):
                              'session:randomize/keep:plain', 'session:init/keep:extint', 'session:init/keep:plain',
                              'session:layout-antennas', 'session:layout-users', 'session:solver-untouched',
                              'session:solver-sync', 'session:solver-P', 'session:solver-precoders',
-                             'session:solver-filters', 'session:solver-randomizeF'] + ['noise-type:' + t for t in NUMTYPES] + \
+                             'session:solver-filters', 'session:solver-randomizeF', 'R7:second-solver',
+                             'R5:pathloss-zero', 'R5:size-boundary', 'R6:low-power', 'R6:global',
+                             'R2:zero-streams', 'R2:0d-noise', 'R2:0d-pe', 'R1:container-list',
+                             'R1:container-tuple', 'R1:dims-list', 'R1:dims-scalar', 'R1:K-np.int8',
+                             'R1:K-0d:int32'] + ['corr:R%d' % i for i in range(1, 8)] + \
+                            ['oracle:R%d' % i for i in range(1, 8)] + \
+                            ['R1:arr-' + a for a in ('int8', 'uint8', 'int16', 'uint16', 'int32', 'int64', 'float32',
+                                                     'complex64')] + ['R2:layout-' + l for l in LAYOUTS] + \
+                            ['R4:' + r for r in REJECTS_CHANNEL + REJECTS_EXT + REJECTS_SOLVER] + ['noise-type:' + t for t in NUMTYPES] + \
                             ['pe-type:' + t for t in NUMTYPES] + \
                             ['P-type:' + t for t in ('float', 'int', 'np.int32', 'np.float32', 'list', 'scalar:int',
                                                      'scalar:float', 'scalar:np.float32', 'scalar:np.int64')]
-    cases = corpus_cases() + gen_cases(ctx, 500 if quick else 5000)
+    cases = corpus_cases() + gen_cases(ctx, 400 if quick else 4000) + gen_rcases(ctx, 40 if quick else 600)
     if not quick:
         cases += layout_sweep(ctx)
     sessions = corpus_sessions() + gen_sessions(ctx, 160 if quick else 1500)
